@@ -233,15 +233,11 @@ page_harness!(c19_loader_2_lines_mask7, 3, 0, 7);
 fn c19_new_replaces_interpreter() {
     let mut js = JsInterpreter::default();
     core_contract::mark_used(&mut js.interpreter);
-    js.start_evaluating(String::new());
-    // the contract picked an outcome; if it was "new interpreter requested" the adapter must have swapped
-    let fresh = core_contract::looks_fresh(&js.interpreter);
+    js.start_evaluating(String::from("NEW"));
     let s = js.get_state(); // must not hit the panic arm
-    if fresh {
-        assert!(is_idle(&s) && js.latest_error.is_none(), "c19: after NEW the adapter exposes a fresh, idle interpreter");
-    }
-    kani::cover!(fresh, "reached_new");
-    kani::cover!(matches!(s, JsInterpreterState::Errored), "reached_error");
+    assert!(is_idle(&s) && js.latest_error.is_none(), "c19: after NEW the adapter is idle without an error");
+    assert!(core_contract::looks_fresh(&js.interpreter), "c19: NEW yields an interpreter indistinguishable from a freshly created one");
+    kani::cover!(true, "reached_end");
     core::mem::forget(js);
 }
 
